@@ -14,23 +14,23 @@ def NoPanic (o : Oracle) : Prop := ∀ d m, o.verified d ≠ .error (.panic m)
 -- "not a panic"
 
 /-- not a panic -/
-def NP {α} (x : R α) : Prop := ∀ m, x ≠ .error (.panic m)
+def SNP {α} (x : R α) : Prop := ∀ m, x ≠ .error (.panic m)
 
-theorem NP_ok {α} (a : α) : NP (.ok a : R α) := by intro m h; cases h
-theorem NP_err {α} : NP (.error .err : R α) := by intro m h; cases h
-theorem NP_fuel {α} : NP (.error .fuel : R α) := by intro m h; cases h
-theorem NP_bind {α β} {x : R α} {f : α → R β} (hx : NP x) (hf : ∀ a, NP (f a)) : NP (x >>= f) := by
+theorem NP_ok {α} (a : α) : SNP (.ok a : R α) := by intro m h; cases h
+theorem NP_err {α} : SNP (.error .err : R α) := by intro m h; cases h
+theorem NP_fuel {α} : SNP (.error .fuel : R α) := by intro m h; cases h
+theorem NP_bind {α β} {x : R α} {f : α → R β} (hx : SNP x) (hf : ∀ a, SNP (f a)) : SNP (x >>= f) := by
   intro m h
   cases x with
   | error e =>
     simp only [bind, Except.bind] at h
     cases h; exact hx m rfl
   | ok a => exact hf a m h
-theorem NP_ite {α} {c : Prop} [Decidable c] {x y : R α} (hx : NP x) (hy : NP y) :
-    NP (if c then x else y) := by
+theorem NP_ite {α} {c : Prop} [Decidable c] {x y : R α} (hx : SNP x) (hy : SNP y) :
+    SNP (if c then x else y) := by
   split <;> assumption
 
-theorem probe_ok {α} {x : R α} (h : NP x) : ∃ y, probe x = .ok y := by
+theorem probe_ok {α} {x : R α} (h : SNP x) : ∃ y, probe x = .ok y := by
   unfold probe
   split
   · exact ⟨_, rfl⟩
@@ -147,7 +147,7 @@ theorem parseZipStream_eq (o : Oracle) (s : Bytes) : parseZipStream o s =
 -- ---------------------------------------------------------------------------------------------
 -- the parsers never panic; the gzip header is at least 10 bytes, the zip header at least 30
 
-theorem skipCString_NP : ∀ s n, NP (skipCString s n) := by
+theorem skipCString_NP : ∀ s n, SNP (skipCString s n) := by
   intro s
   induction s with
   | nil => intro n; exact NP_err
@@ -164,7 +164,7 @@ theorem skipCString_gt : ∀ s n m, skipCString s n = .ok m → n < m := by
     · cases h; omega
     · have := ih _ _ h; omega
 
-theorem skipGzipHeader_NP (s : Bytes) : NP (skipGzipHeader s) := by
+theorem skipGzipHeader_NP (s : Bytes) : SNP (skipGzipHeader s) := by
   rw [skipGzipHeader_eq]
   refine NP_ite NP_err (NP_ite NP_err ?_)
   refine NP_bind ?_ fun _ => NP_bind ?_ fun _ => NP_bind ?_ fun _ => ?_
@@ -173,7 +173,7 @@ theorem skipGzipHeader_NP (s : Bytes) : NP (skipGzipHeader s) := by
   · unfold gzStr; exact NP_ite (skipCString_NP _ _) (NP_ok _)
   · unfold gzD; exact NP_ite (NP_ite NP_err (NP_ok _)) (NP_ok _)
 
-theorem bind_eq_ok {α β} {x : R α} {f : α → R β} {b : β} (h : x >>= f = .ok b) :
+theorem s_bind_eq_ok {α β} {x : R α} {f : α → R β} {b : β} (h : x >>= f = .ok b) :
     ∃ a, x = .ok a ∧ f a = .ok b := by
   cases x with
   | error e => cases h
@@ -185,9 +185,9 @@ theorem skipGzipHeader_ge (s : Bytes) (h : Nat) (hs : skipGzipHeader s = .ok h) 
   · cases hs
   split at hs
   · cases hs
-  obtain ⟨a, ha, hs⟩ := bind_eq_ok hs
-  obtain ⟨b, hb, hs⟩ := bind_eq_ok hs
-  obtain ⟨c, hc, hs⟩ := bind_eq_ok hs
+  obtain ⟨a, ha, hs⟩ := s_bind_eq_ok hs
+  obtain ⟨b, hb, hs⟩ := s_bind_eq_ok hs
+  obtain ⟨c, hc, hs⟩ := s_bind_eq_ok hs
   have h1 : 10 ≤ a := by
     unfold gzA at ha
     split at ha
@@ -217,7 +217,7 @@ theorem skipGzipHeader_ge (s : Bytes) (h : Nat) (hs : skipGzipHeader s = .ok h) 
   omega
 
 theorem idatChunks_NP (crc : Bytes → Nat) (s : Bytes) :
-    ∀ fuel pos payload sizes, NP (idatChunks crc s fuel pos payload sizes) := by
+    ∀ fuel pos payload sizes, SNP (idatChunks crc s fuel pos payload sizes) := by
   intro fuel
   induction fuel with
   | zero => intro _ _ _; exact NP_fuel
@@ -227,20 +227,20 @@ theorem idatChunks_NP (crc : Bytes → Nat) (s : Bytes) :
     refine NP_ite ?_ (NP_ok _)
     exact NP_ite (NP_ok _) (NP_ite NP_err (NP_ite NP_err (ih _ _ _)))
 
-theorem parseIdat_NP (crc : Bytes → Nat) (s : Bytes) : NP (parseIdat crc s) := by
+theorem parseIdat_NP (crc : Bytes → Nat) (s : Bytes) : SNP (parseIdat crc s) := by
   rw [parseIdat_eq]
   refine NP_ite NP_err (NP_bind (idatChunks_NP _ _ _ _ _ _) fun _ => ?_)
   unfold idatFinish
   exact NP_ite NP_err (NP_ok _)
 
-theorem zipVerify_NP {o : Oracle} (hnp : NoPanic o) (s : Bytes) (n : Nat) : NP (zipVerify o s n) := by
+theorem zipVerify_NP {o : Oracle} (hnp : NoPanic o) (s : Bytes) (n : Nat) : SNP (zipVerify o s n) := by
   unfold zipVerify
   split
   · exact NP_ok _
   · rename_i m h; exact absurd h (hnp _ m)
   · exact NP_err
 
-theorem parseZipStream_NP {o : Oracle} (hnp : NoPanic o) (s : Bytes) : NP (parseZipStream o s) := by
+theorem parseZipStream_NP {o : Oracle} (hnp : NoPanic o) (s : Bytes) : SNP (parseZipStream o s) := by
   rw [parseZipStream_eq]
   exact NP_ite NP_err (NP_ite NP_err (NP_ite NP_err (NP_ite (NP_ite NP_err (zipVerify_NP hnp _ _)) NP_err)))
 
